@@ -7,6 +7,15 @@ CLAIMED = {
  "C01": ("H1", "deterministic simulation of the real h1 dispatcher over a scripted socket: seeded search over request streams x segmentations x readiness patterns, ground-truth oracle",
          "Seeded exploration: the real HttpService/h1::Dispatcher/decoder run against generated pipelined request streams (all framings, every malformed-framing class, canary after the malformed message) under simulator-chosen segmentations, 1-byte reads, injected Pending/WouldBlock and partial writes; what the application saw is compared with the generator's ground truth, the bytes written are parsed by an independent response reader. Sampling, not proof.",
          "Trusts the simulator's own socket/executor/response reader; TCP semantics (no loss/reorder inside a connection); leniency-zone syntax (bare LF, trailers, obs-fold) is not generated under the equality clause.", "§4 C01"),
+ "C02": ("H1", "deterministic simulation of the real h1 dispatcher/encoder: seeded search over pipelined mixes x scripted handlers/bodies x timings; independent response parser, body-faithfulness oracle, metamorphic solo-run isolation oracle",
+         "Seeded exploration: pipelined request mixes (methods, versions, Connection options, Expect) against scripted handlers (statuses, every body kind incl. empty chunks, short/long/erroring bodies, user framing headers) with simulator-chosen relative timing of handler completion, body readiness, later-request arrival and socket readiness. The written bytes are parsed by an independent RFC 7230 reader told the request methods; bodies are compared with what each body actually yielded; framing of each response is compared with the same request+handler run alone. Sampling, not proof.",
+         "Trusts the simulator and its response reader; handlers use body::None only with 204/304 (documented use); a truncated message with the connection terminated is accepted.", "§4 C02"),
+ "C03": ("H1", "deterministic simulation of the real h1 dispatcher: seeded search over handlers that read none/part/all of the body and respond early or late x segmentations x timings; ground-truth and close-discipline oracles",
+         "Seeded exploration: pipelined sequences whose handlers read none/some/all of the request body, drop or hold the payload, answer early or late, with keep-alive on/off, half-close allowed or not and the remaining body bytes arriving under simulator-chosen segmentation and timing. Every dispatched request must be byte-exactly the next ground-truth request (so ignored body bytes are never parsed as a head, drained bodies are drained to their exact end) and nothing may be written or dispatched after a response that ends the connection. Sampling, not proof.",
+         "Trusts the simulator and its response reader; whether actix classifies a body as drainable is its own policy and is not second-guessed.", "§4 C03"),
+ "C04": ("H1", "deterministic simulation under a wake-driven executor: tasks are polled only when woken; seeded search over socket/handler/body readiness patterns; quiescence + probe poll for lost wake-ups; metamorphic reference run for byte order",
+         "Seeded exploration with timers disabled: adversarial socket (1-byte/short reads, injected Pending/WouldBlock, partial writes, zero-capacity stalls with later grants, flush Pending), handlers and bodies that return Pending, request bodies consumed by a separate simulator task, response bodies fed from another task, peer half-close at any point. The connection task is polled only when its waker fired; at quiescence a probe poll that makes progress is a lost wake-up; output must equal the trivial-schedule reference run byte for byte (canonical form); after peer EOF and handler completion the connection future must complete. Sampling, not proof.",
+         "Fairness: every injected stall is finite. Scenarios are restricted to the class whose output is schedule-independent by specification (handlers consume their bodies, nothing ends the connection early).", "§4 C04"),
 }
 
 NOT_APPLICABLE = {
